@@ -27,17 +27,19 @@ CLASS = {
 PRIORITY = ['emptycand', 'space', 'echo', 'escape', 'stoptest', 'glob', 'subaccept', 'stale']
 
 MANIFEST = dict(
-    text=('Theorems of Props/C17.v on Model/BashSem.v (interpreter of the emitted bash skeleton over the emitted tables): every '
-          'invocation the interpreter logs has the documented shape -- ("","") while walking, (prefix,"") at the cursor, '
-          '(rest of the word, matched part) inside a word, with rest/matched a split of the word -- and names a command the tables '
-          'list (C17_invocation_shapes); on the clean domain (candidates without blanks/-n/-e, glob-free words, no within-word '
-          'expressions, no last-word escape) the log and COMPREPLY equal the specification Spec/Invocations.v written from the '
-          'property (C17_toplevel_spec); witnesses computed inside Coq refute the property for candidates with spaces, -n/-e, the '
-          'last-word escape, glob words and the empty candidate inside a word (C17_refuted_*). BashSem is tied to real bash by T2 '
-          '(rc, COMPREPLY, probe log compared exactly on generated grammars with probes at top level, inside words, under [], ..., |, '
-          '||, through definitions and <X@bash> definitions), and real bash is judged directly against an executable reading of the '
-          'property computed from the tables; deviations are attributed to listed mechanisms only when switching exactly those on '
-          'in the reference reproduces bash.'),
+    text=('Theorems of Props/C17.v on Model/BashSem.v (interpreter of the emitted bash skeleton over the emitted tables; variant Repaired '
+          'mirrors /repo HEAD): C17_invocation_shapes -- for all tables, environments and command lines every logged invocation is ("","") '
+          'while walking, (prefix,"") at the cursor, or (rest of the word, matched part) inside a word, and names an existing command; '
+          'C17_repaired_toplevel_spec -- for every environment and command line over tables without within-word expressions, return code, '
+          'COMPREPLY and the whole invocation log equal Spec/Invocations.v, the specification written from the property (exactly the expected '
+          'commands at the expected places with the expected arguments, candidates = text before the first tab, a word accepted iff it '
+          'equals a candidate), with no known-class hypothesis; C17_toplevel_spec -- the same for the templates before the repair on the '
+          'clean domain only; C17_refuted_* -- witnesses computed inside Coq for what those templates did with spaces, -n/-e, the last-word '
+          'escape, glob words, the empty candidate inside a word (non-termination) and candidate prefix chains; C17_repaired_witnesses -- '
+          'HEAD on the same inputs. BashSem is tied to real bash by T2 (rc, COMPREPLY, probe log compared exactly on generated grammars with '
+          'probes at top level, inside words, under [], ..., |, ||, through definitions and <X@bash> definitions), and real bash is judged '
+          'directly against an executable reading of the property computed from the tables (tied to the extracted Coq specification); '
+          'deviations are attributed to listed mechanisms only when switching exactly those on in the reference reproduces bash.'),
     design='6 C17',
     technique='Coq theorems on the bash-skeleton interpreter + real-bash/extracted-model correspondence (T2) + direct judgement of real bash against an executable specification with mechanism attribution')
 
